@@ -28,6 +28,9 @@ CHECK = {
     'quick': [
       T('ab5', 'base', 'alpha=2', 'maxlen=5'),
       T('ab3-asan', 'asan', 'alpha=2', 'maxlen=3'),
+      # the argument IS the target: assign(s,s), concat(s,s), rem(s,s) added to the alphabet
+      T('ab3-alias-asan', 'asan', 'alpha=2', 'maxlen=3', 'alias=1'),
+      T('ab4-alias', 'base', 'alpha=2', 'maxlen=4', 'alias=1'),
     ],
     'thorough': [
       T('abc6', 'base', 'alpha=3', 'maxlen=6'),
@@ -35,6 +38,8 @@ CHECK = {
       T('ab8-u3', 'base', 'alpha=2', 'maxlen=8', 'ulen=3'),
       T('ab6-asan', 'asan', 'alpha=2', 'maxlen=6'),
       T('abc4-asan', 'asan', 'alpha=3', 'maxlen=4'),
+      T('ab5-alias-asan', 'asan', 'alpha=2', 'maxlen=5', 'alias=1'),
+      T('abc5-alias', 'base', 'alpha=3', 'maxlen=5', 'alias=1'),
     ],
   },
 }
